@@ -105,3 +105,153 @@ macro_rules! string_shape {
 }
 string_shape!(k_reader_string_6, 6, 7, [4, 3, 0, 5, 0xffff]);
 string_shape!(k_reader_string_1, 1, 3, [0]);
+
+/// A reader over `data` whose delivery is scripted: every `read` call consumes one script byte.
+/// 0 = Err(Interrupted) (transient), 1 = Err(ConnectionReset) (hard, if `hard`), k >= 2 = deliver
+/// min(k - 1, buf.len(), remaining) bytes (at least one while data remains). An exhausted script delivers everything.
+pub(crate) struct ScriptReader<'a> {
+    pub data: &'a [u8],
+    pub pos: usize,
+    pub script: &'a [u8],
+    pub step: usize,
+    pub hard: bool,
+}
+
+impl<'a> std::io::Read for ScriptReader<'a> {
+    fn read(&mut self, buf: &mut [u8]) -> std::io::Result<usize> {
+        let code = if self.step < self.script.len() { self.script[self.step] } else { 255 };
+        self.step += 1;
+        if code == 0 {
+            return Err(ErrorKind::Interrupted.into());
+        }
+        if code == 1 && self.hard {
+            return Err(ErrorKind::ConnectionReset.into());
+        }
+        let rem = self.data.len() - self.pos;
+        let mut n = if code <= 1 { 1 } else { (code - 1) as usize };
+        if n > rem {
+            n = rem;
+        }
+        if n > buf.len() {
+            n = buf.len();
+        }
+        let mut i = 0;
+        while i < n {
+            buf[i] = self.data[self.pos + i];
+            i += 1;
+        }
+        self.pos += n;
+        Ok(n)
+    }
+}
+
+crate::verif_harness! {
+    /// C14: for EVERY split of a 7-byte stream into read() return sizes and EVERY placement of transient
+    /// Interrupted results (script of 10 symbolic steps), dword / word / byte return exactly what the
+    /// in-memory cursor returns, and the 8th byte is the end-of-input error.
+    #[kani::stub(std::fmt::format, crate::verif_spec::stubs::format_stub)]
+    #[kani::unwind(12)]
+    fn k_reader_schedule(s) {
+        let d: [u8; 7] = s.bytes();
+        let script: [u8; 10] = s.bytes();
+        let mut i = 0;
+        while i < 10 {
+            s.assume(script[i] != 1); // no hard errors in this harness
+            i += 1;
+        }
+        let mut r = AseReader::with(ScriptReader { data: &d, pos: 0, script: &script, step: 0, hard: false });
+        let a = r.dword();
+        assert!(a.as_ref().ok().copied() == fmt::le_u32(&d, 0), "dword is independent of the read schedule");
+        let b = r.word();
+        assert!(b.as_ref().ok().copied() == fmt::le_u16(&d, 4), "word after dword, any schedule");
+        let c = r.byte();
+        assert!(c.as_ref().ok() == Some(&d[6]), "byte after word, any schedule");
+        let e = r.byte();
+        assert!(is_eof(&e), "end of input is the end-of-input error for any schedule");
+        crate::vcover!(script[0] == 0 && script[1] == 2 && script[2] == 0, "interrupt, one byte, interrupt");
+        core::mem::forget(a);
+        core::mem::forget(b);
+        core::mem::forget(c);
+        core::mem::forget(e);
+    }
+}
+
+crate::verif_harness! {
+    /// C14: with a hard I/O error injected anywhere in the schedule, every primitive returns either the correct
+    /// value or Err(IoError) carrying that very error kind - never a wrong value, never a panic; and once the
+    /// data of a primitive has been fully delivered before the error, that primitive is unaffected.
+    #[kani::stub(std::fmt::format, crate::verif_spec::stubs::format_stub)]
+    #[kani::unwind(12)]
+    fn k_reader_hard_error(s) {
+        let d: [u8; 6] = s.bytes();
+        let script: [u8; 8] = s.bytes();
+        let mut r = AseReader::with(ScriptReader { data: &d, pos: 0, script: &script, step: 0, hard: true });
+        let a = r.dword();
+        let a_ok = match &a {
+            Ok(v) => Some(*v) == fmt::le_u32(&d, 0),
+            Err(AsepriteParseError::IoError(e)) => e.kind() == ErrorKind::ConnectionReset,
+            Err(_) => false,
+        };
+        assert!(a_ok, "dword: the right value or the injected I/O error");
+        if a.is_ok() {
+            let b = r.word();
+            let b_ok = match &b {
+                Ok(v) => Some(*v) == fmt::le_u16(&d, 4),
+                Err(AsepriteParseError::IoError(e)) => e.kind() == ErrorKind::ConnectionReset,
+                Err(_) => false,
+            };
+            assert!(b_ok, "word: the right value or the injected I/O error");
+            core::mem::forget(b);
+        }
+        crate::vcover!(a.is_err(), "the hard error reaches the caller");
+        crate::vcover!(a.is_ok(), "the dword can still succeed");
+        core::mem::forget(a);
+    }
+}
+
+crate::verif_harness! {
+    /// C14, small shape for the quick tier: 5-byte stream, 6 scripted read() calls: dword, skip_reserved(1), end of input.
+    #[kani::stub(std::fmt::format, crate::verif_spec::stubs::format_stub)]
+    #[kani::unwind(9)]
+    fn k_reader_schedule_5(s) {
+        let d: [u8; 5] = s.bytes();
+        let script: [u8; 6] = s.bytes();
+        let mut i = 0;
+        while i < 6 {
+            s.assume(script[i] != 1);
+            i += 1;
+        }
+        let mut r = AseReader::with(ScriptReader { data: &d, pos: 0, script: &script, step: 0, hard: false });
+        let a = r.dword();
+        assert!(a.as_ref().ok().copied() == fmt::le_u32(&d, 0), "dword is independent of the read schedule");
+        let c = r.skip_reserved(1);
+        assert!(c.is_ok(), "skipping an available byte succeeds for any schedule (Interrupted is retried)");
+        let e = r.byte();
+        assert!(is_eof(&e), "end of input is the end-of-input error for any schedule");
+        crate::vcover!(script[0] == 0 && script[1] == 2 && script[2] == 0, "interrupt, one byte, interrupt");
+        core::mem::forget(a);
+        core::mem::forget(c);
+        core::mem::forget(e);
+    }
+}
+
+crate::verif_harness! {
+    /// C14, small shape for the quick tier: 4-byte stream, 5 scripted calls with a hard error anywhere.
+    #[kani::stub(std::fmt::format, crate::verif_spec::stubs::format_stub)]
+    #[kani::unwind(8)]
+    fn k_reader_hard_error_4(s) {
+        let d: [u8; 4] = s.bytes();
+        let script: [u8; 5] = s.bytes();
+        let mut r = AseReader::with(ScriptReader { data: &d, pos: 0, script: &script, step: 0, hard: true });
+        let a = r.dword();
+        let a_ok = match &a {
+            Ok(v) => Some(*v) == fmt::le_u32(&d, 0),
+            Err(AsepriteParseError::IoError(e)) => e.kind() == ErrorKind::ConnectionReset,
+            Err(_) => false,
+        };
+        assert!(a_ok, "dword: the right value or the injected I/O error");
+        crate::vcover!(a.is_err(), "the hard error reaches the caller");
+        crate::vcover!(a.is_ok(), "the dword can still succeed");
+        core::mem::forget(a);
+    }
+}
